@@ -6,7 +6,7 @@ cd "$(dirname "$0")/.."
 PS="${*:-C01 C02 C03 C04 C05 C06 C07 C08 C09 C10 C11 C12 C13 C14 C15 C16 C17 C18 C19 C20}"
 for P in $PS; do
   ( for d in /tmp/seed/$P/_seeded/$P-*; do
-      python3 scripts/seedcheck.py /tmp/seed/$P $d --no-suite 2>&1 | python3 -c "
+      python3 scripts/seedcheck.py /tmp/seed/$P $d --no-suite $SEEDARGS 2>&1 | python3 -c "
 import json,sys
 try: d=json.load(sys.stdin)
 except Exception as e: print('$d unparseable', e); sys.exit()
